@@ -124,7 +124,7 @@ def frames_of(run, f, cfg, adt, dialect):
 
 
 def literal_for(frames, h_chain, s):
-    esc = S.apply_chain(h_chain, s)
+    esc = h_chain(s) if callable(h_chain) else S.apply_chain(h_chain, s)
     for pred, prefix, suffix, ok_inner, _ in frames:
         if pred is None:
             return prefix + esc + suffix
@@ -154,12 +154,22 @@ def lex_literal(dialect, lit):
 
 def check_escape(run, f, cfg, adt, dialect):
     esc_name = resolve(f, EB, adt, "escape_string")
+    apply_fn = None
     try:
         chain = S.escape_chain(f, esc_name)
+        hom, why = S.chain_is_homomorphism(chain)
     except Anchor as e:
-        run.anchor("C03.R1", "%s:escape" % dialect, str(e), cfg)
-        return
-    hom, why = S.chain_is_homomorphism(chain)
+        # neither a replace chain nor a recognisable character loop: characterise the function by interpreting its body on
+        # short strings over its own alphabet (strfun.InterpStrFn)
+        try:
+            apply_fn = S.InterpStrFn(f, esc_name)
+            m, problems = apply_fn.per_char(apply_fn.alphabet(extra="'\"\\"))
+        except Anchor as e2:
+            run.anchor("C03.R1", "%s:escape" % dialect, "%s; %s" % (e, e2), cfg)
+            return
+        chain = [(c, v) for c, v in sorted(m.items()) if v != c]
+        hom, why = (not problems), "; ".join(problems)
+        run.notes.append("%s: escape_string is not a replace chain / character loop: its per-character code was tabulated by interpretation" % dialect)
     run.ob("C03.R1", "%s:homomorphism" % dialect, hom,
            "%s: escape_string is one simultaneous per-character substitution%s" % (dialect, "" if hom else " - NOT: " + why),
            sp=f.fn(esc_name)["sp"], cfg=cfg, detail=chain)
@@ -201,7 +211,7 @@ def check_escape(run, f, cfg, adt, dialect):
             if ln > 1 and any(c in bad_chars for c in s):
                 continue   # already reported at the character level
             n += 1
-            lit = literal_for(frames, chain, s)
+            lit = literal_for(frames, apply_fn or chain, s)
             try:
                 if lit is None:
                     raise L.LexError("no literal form selected")
@@ -223,7 +233,7 @@ def check_escape(run, f, cfg, adt, dialect):
                    "%s: the character U+%04X is written as %s, which the %s lexer %s" % (dialect, ord(c), lit, dialect, why), sp=f.fn(esc_name)["sp"], cfg=cfg)
         else:
             run.ob("C03.R1", "%s:char:U+%04X" % (dialect, ord(c)), True,
-                   "%s: %r inlines as %s and decodes back" % (dialect, c, literal_for(frames, chain, c)), sp=f.fn(esc_name)["sp"], cfg=cfg,
+                   "%s: %r inlines as %s and decodes back" % (dialect, c, literal_for(frames, apply_fn or chain, c)), sp=f.fn(esc_name)["sp"], cfg=cfg,
                    trivial=(c not in dict(chain)))
     seen = set()
     for s, lit, why in bad_longer[:20]:
